@@ -195,6 +195,8 @@ def run(P, R, tier):
     R.floor("OPT optional-factor selections", n_opt, 6)
     from ..engines import traps as _traps
     _traps.check(P, R, ['factor_analysis', 'linear_scoring'], scope='(factor_analysis:(FactorAnalysisBase\\.(estimate_x|estimate_ux|_compute_fn_x|_compute_id_plus_us_prod_inv|_compute_uprod|mean_supervector|variance_supervector|score_using_array|enroll_using_array|_\\w*pool\\w*|_\\w*probe\\w*)|ISVMachine\\.(score|transform)|JFAMachine\\.score|_\\w*probe\\w*|_\\w*pool\\w*)|linear_scoring:)')
+    from ..engines import opt as _optf
+    _optf.check_forwarded_defaults(P, R, ['factor_analysis', 'linear_scoring'])
 
 
 EXPLANATION += " Also: the posterior precision of the probe's channel factor (identity + count-weighted U' Sigma^-1 U, counts multiplying, variances dividing), (OPT) optional factors, pooling of multi-statistics probes also inside helpers."
